@@ -87,7 +87,7 @@ PROPS["C02"] = {
              "max_read_width w in {1,2,3,5,100}; 3 (quick) / 8 (thorough) tape-chosen schedules. Oracle 1: allowed under (r,g,w) => allowed by the unbounded reference R1 (non-stratified cases skipped and counted). "
              "Oracle 2: the same schedule tape against global depth eff(r,g) with request depth 0 gives the same decision and the same storage-call trace. "
              "non-trivial = a depth or width cut actually happened in the run (engine log probes); distinct = hash of (config, tuples, query, g, r, w)."),
-    "probes": ["probe_depth_cut", "probe_depth_cut_with_negation", "probe_width_cut", "probe_fanout_below_negation", "probe_cut_turned_allowed_into_denied", "probe_request_depth_nonpositive", "probe_request_depth_above_global", "probe_request_depth_lowers", "probe_batch_entry_point", "probe_rest_entry_point", "probe_connection_pool_of_one", "pairs_equal", "allowed_under_limit"],
+    "probes": ["probe_depth_cut", "probe_depth_cut_with_negation", "probe_width_cut", "probe_fanout_below_negation", "probe_cut_turned_allowed_into_denied", "probe_request_depth_nonpositive", "probe_request_depth_above_global", "probe_request_depth_lowers", "probe_batch_entry_point", "pairs_equal", "allowed_under_limit"],
     "real": REAL_E, "stub": STUB_E,
     "fault_kinds": {},
     "assumptions": ["unbounded semantics = least fixed point of the stratified reference R1", "eff(r,g) as stated in the property"],
